@@ -78,6 +78,22 @@ func verifC18Sys(id string, seed int64) *verifSys {
 		m := w.Mon.(*monC18)
 		var fs []verifFinding
 		var released [][]byte
+		// what one call emits reaches the peer in this order: the message that completes the key exchange must come
+		// before the data messages of the session it opens, or the peer cannot read them
+		firstData, lastAKE := -1, -1
+		for k, o := range out {
+			switch guessMessageType(o) {
+			case msgGuessData:
+				if firstData < 0 {
+					firstData = k
+				}
+			case msgGuessSignature, msgGuessRevealSig, msgGuessDHKey, msgGuessDHCommit:
+				lastAKE = k
+			}
+		}
+		if wentSecure && firstData >= 0 && lastAKE > firstData {
+			fs = append(fs, verifFinding{"C18:data-before-key-exchange-reply", fmt.Sprintf("%s went secure and emitted a data message (position %d) before the key-exchange message (position %d) that lets the peer read it", w.P[i].Name, firstData, lastAKE)})
+		}
 		for _, o := range out {
 			if guessMessageType(o) != msgGuessData {
 				continue
